@@ -378,8 +378,28 @@ def r8(run, db):
         elif cls == "tree":
             # receiver originates from the tree's own supervisor / monitors fields
             thr = lambda cc: 0 if cc.matches(r"Clone>::clone$|Deref>::deref$|Result::<T, E>::unwrap$|Mutex::<T>::lock$|Iterator>::next$|IntoIterator>::into_iter$|Iterator::cloned$|Iterator::collect$|Values|slice::<impl \[T\]>::iter$|Deref::deref$|Option::<T>::as_ref$|HashMap::<K, V, S, A>::values$") else None
-            rr = f.origins(c.args[0], through=thr)
+            # a crate-local getter (`self.try_get_supervisor()`) stands for the fields of its receiver its result is read from
+            getters = {}
+            def getter(cc, base=thr):
+                g = db.fns.get(cc.resolved or "") or db.fns.get(cc.callee or "")
+                if g is None or g.crate != f.crate or g.kind not in ("fn", "method") or g.arg_count < 1:
+                    return None
+                gr = g.origins([0, []], through=base)
+                gr = [r for r in gr if not (r["k"] == "agg" and r["stmt"]["rv"].get("variant") == "None")]
+                if gr and all(r["k"] == "arg" and r["local"] == 1 for r in gr):
+                    nm = set()
+                    for r in gr:
+                        for e in r.get("proj", []) + r.get("trail", []):
+                            if e.startswith("f:") and len(e.split(":")) > 2:
+                                nm.add(e.split(":")[2])
+                    getters[cc.bb] = nm
+                    return 0
+                return None
+            thr2 = lambda cc: thr(cc) if thr(cc) is not None else getter(cc)
+            rr = f.origins(c.args[0], through=thr2)
             names = set()
+            for nm in getters.values():
+                names |= nm
             for r in rr:
                 for e in r.get("proj", []) + r.get("trail", []):
                     if e.startswith("f:") and len(e.split(":")) > 2:
